@@ -217,6 +217,22 @@ def r_register_membership(ctx: Ctx, rule: str):
             """The keys under which the group table holds the register that `e` evaluates to (None: not recognisably from the table)."""
             if depth > 6 or e is None:
                 return None
+            alts = V.leaves(fr, env, e)
+            if len(alts) > 1 and depth < 6:
+                # several bindings (`reg = table.get(name)` / `if reg is None: reg = table[name] = Register()`): each must be the
+                # register filed under a key; together they name the keys
+                out_: list = []
+                for fr2, env2, leaf2 in alts:
+                    ks = register_keys(fr2, env2, leaf2, depth + 1) if not isinstance(leaf2, ast.Name) else None
+                    if ks is None and isinstance(leaf2, ast.Call) and ctx.an.scope(fr2).callee(leaf2).kind == "ctor":
+                        own2 = list(ctx.an.scope(fr2)._own_nodes())
+                        held = {t.id for x in own2 if isinstance(x, ast.Assign) and x.value is leaf2 for t in x.targets if isinstance(t, ast.Name)}
+                        ks = [(fr2, env2, t.slice) for x in own2 if isinstance(x, ast.Assign) and (x.value is leaf2 or (isinstance(x.value, ast.Name) and x.value.id in held))
+                              for t in x.targets if isinstance(t, ast.Subscript) and ctx.eff.rebase(ctx.eff.paths(fr2).of(t.value) or "", fr2, env2) == GROUPS] or None
+                    if ks is None:
+                        return None
+                    out_ += ks
+                return out_ or None
             fr, env, leaf = V.trace(fr, env, e)
             P = ctx.eff.paths(fr)
 
@@ -333,34 +349,49 @@ def r_group_name_generator(ctx: Ctx, rule: str):
                 rep.ob(rule, "a generated name is returned only after it was found absent from the group table", fn_form[1], node=r)
                 rep.ob(rule, "each attempt uses a new index", fn_form[2], node=r)
                 continue
-            v = r.ast.value
+            # where the name is really produced: this return, or - when it returns the result of a helper spliced in here (a pure
+            # `unique_name(base, taken)`) - the returns of that helper, read in the helper's frame
+            sites = [r]
+            hv = ctx.vals.resolve(f, r.ast.value)
+            if isinstance(hv, ast.Call) and id(hv) in ctx.an.spliced_at:
+                ht = ctx.an.spliced_at[id(hv)]
+                inner = [n for n in g.nodes if n.pred and n.func is ht and n.op in ("ret_inl", "return") and isinstance(n.ast, ast.Return) and n.ast.value is not None]
+                probes = [n for n in g.nodes if n.pred and n.func is ht and n.op == "test" and isinstance(n.ast, ast.Compare) and len(n.ast.ops) == 1
+                          and isinstance(n.ast.ops[0], (ast.In, ast.NotIn)) and ctx.eff.rebase(ctx.eff.paths(ht).of(n.ast.comparators[0]) or "", ht, n.env) == GROUPS]
+                if inner and probes:  # (a helper that only builds the text is not where the name is chosen)
+                    sites = inner
+            for r2 in sites:
+                fr2 = r2.func
+                v = r2.ast.value
 
-            def same_name(left: ast.AST) -> bool:
-                """the value tested for membership is the value returned"""
-                if ast.unparse(left) == ast.unparse(v):
+                def same_name(left: ast.AST) -> bool:
+                    """the value tested for membership is the value returned"""
+                    if ast.unparse(left) == ast.unparse(v):
+                        return True
+                    if isinstance(left, ast.NamedExpr) and isinstance(v, ast.Name) and left.target.id == v.id:
+                        return True
+                    tl, tv = template(ctx, fr2, left), template(ctx, fr2, v)
+                    return tl is not None and tl == tv and any(k == "lit" for k, _ in tl)
+
+                tests = [n for n in g.nodes if n.pred and n.func is fr2 and n.op == "test" and isinstance(n.ast, ast.Compare) and len(n.ast.ops) == 1
+                         and isinstance(n.ast.ops[0], (ast.In, ast.NotIn))
+                         and ctx.eff.rebase(ctx.eff.paths(fr2).of(n.ast.comparators[0]) or "", fr2, n.env) == GROUPS and same_name(n.ast.left)]
+
+                def ef(a: Node, b: Node, lab: Label) -> bool:
+                    if a in tests and lab[0] in ("T", "F"):
+                        free = (lab[0] == "T") == isinstance(a.ast.ops[0], ast.NotIn)
+                        return not free
                     return True
-                if isinstance(left, ast.NamedExpr) and isinstance(v, ast.Name) and left.target.id == v.id:
-                    return True
-                tl, tv = template(ctx, f, left), template(ctx, f, v)
-                return tl is not None and tl == tv and any(k == "lit" for k, _ in tl)
 
-            tests = ctx.nodes(f, lambda n: n.op == "test" and isinstance(n.ast, ast.Compare) and len(n.ast.ops) == 1 and isinstance(n.ast.ops[0], (ast.In, ast.NotIn))
-                              and ctx.eff.paths(f).of(n.ast.comparators[0]) == GROUPS and same_name(n.ast.left))
-
-            def ef(a: Node, b: Node, lab: Label) -> bool:
-                if a in tests and lab[0] in ("T", "F"):
-                    free = (lab[0] == "T") == isinstance(a.ast.ops[0], ast.NotIn)
-                    return not free
-                return True
-
-            ok2 = bool(tests) and r not in reach([g.entry], ef)
-            rep.ob(rule, "a generated name is returned only after it was found absent from the group table", ok2, node=r)
-            # the counter in the name is a local that changes between attempts
-            if t is not None and len(t) == 5:
-                ctr = t[4][1]
-                augs = ctx.nodes(f, lambda n: n.op in ("aug", "assign") and any(isinstance(x, ast.Name) and x.id == ctr for x in ast.walk(n.ast.target if n.op == "aug" else (n.ast.targets[0] if isinstance(n.ast, ast.Assign) else n.ast.target))) and bool(n.loops))
-                loopvar = any(isinstance(lp, ast.For) and any(isinstance(x, ast.Name) and x.id == ctr for x in ast.walk(lp.target)) for lp in r.loops)
-                rep.ob(rule, "each attempt uses a new index", bool(augs) or loopvar, node=r)
+                ok2 = bool(tests) and r2 not in reach([g.entry], ef)
+                rep.ob(rule, "a generated name is returned only after it was found absent from the group table", ok2, node=r2 if r2 is not r else r)
+                # the counter in the name is a local that changes between attempts
+                t2 = template(ctx, fr2, v) if r2 is not r else t
+                if t2 is not None and t2 and t2[-1][0] == "expr":
+                    ctr = t2[-1][1]
+                    augs = [n for n in g.nodes if n.pred and n.func is fr2 and n.op in ("aug", "assign") and any(isinstance(x, ast.Name) and x.id == ctr for x in ast.walk(n.ast.target if n.op == "aug" else (n.ast.targets[0] if isinstance(n.ast, ast.Assign) else n.ast.target))) and bool(n.loops)]
+                    loopvar = any(isinstance(lp, ast.For) and any(isinstance(x, ast.Name) and x.id == ctr for x in ast.walk(lp.target)) for lp in r2.loops)
+                    rep.ob(rule, "each attempt uses a new index", bool(augs) or loopvar, node=r2)
     for f in ctx.pool_funcs("start"):
         g = ctx.an.cfg(f)
         sc = ctx.an.scope(f)
